@@ -82,11 +82,16 @@ new.append(entry("C07",
 SAFETY = r"#(index|slice|nil|nilmap|assert|div|panic|libpre|makeslice|requires)[@:]"
 INLINED_ONLY = "reflective codec function: analysed on its real body inlined into every API operation, lemma function and listener handler for the concrete message type (reflect on a statically unknown type is outside the engine's model)"
 new.append(entry("C04",
-    functions=OPS + ["uhppote.sendto$1", "uhppote.(*uhppote).udpBroadcastTo$1"] + ["messages.lemmaDecode" + t for t in open(os.path.join(SPEC, "message_types.txt")).read().split()],
+    functions=OPS + ["uhppote.sendto$1", "uhppote.(*uhppote).udpBroadcastTo$1",
+                     # closures under contract (the sweep takes named functions only; a closure that is called through its contract
+                     # has to be listed, or its own run-time checks are nobody's obligation - seed C04-6)
+                     "uhppote.(*uhppote).listen$1", "uhppote.(*uhppote).Listen$1", "uhppote.(*uhppote).Listen$2", "uhppote.(*uhppote).GetStatus$1",
+                     "uhppote.(*ut0311).Broadcast$1", "uhppote.(*ut0311).Listen$1", "uhppote.(*ut0311).Listen$2"] + ["messages.lemmaDecode" + t for t in open(os.path.join(SPEC, "message_types.txt")).read().split()],
     replay=[{"match": "types.(ControlState)", "driver": "types_render", "pkg": "types", "case": "all"},
             {"match": "(*Weekdays).UnmarshalJSON", "driver": "types_text", "pkg": "types", "case": "weekdays"},
             {"match": "(*Segments).UnmarshalJSON", "driver": "types_text", "pkg": "types", "case": "segments"},
-            {"match": "messages.lemmaDecode", "driver": "messages_decode", "pkg": "messages", "case": "all"}],
+            {"match": "messages.lemmaDecode", "driver": "messages_decode", "pkg": "messages", "case": "all"},
+            {"match": "isten$", "driver": "uhppote_listen", "pkg": "uhppote", "case": "all"}],
     sweep=["types", "uhppote", "messages", "encoding/bcd", "encoding/UTO311-L0x"],
     sweep_exclude={
         "encoding/UTO311-L0x.Marshal": INLINED_ONLY, "encoding/UTO311-L0x.marshal": INLINED_ONLY,
@@ -231,6 +236,7 @@ new.append(entry("C09", level="other",
 
 new.append(entry("C10", level="other",
     functions=["uhppote.(*uhppote).listen$1", "uhppote.(*uhppote).listen", "uhppote.(*uhppote).Listen$1", "uhppote.(*uhppote).Listen$2", "uhppote.(*ut0311).Listen", "uhppote.(*ut0311).Listen$1", "uhppote.(*ut0311).Listen$2", "messages.lemmaDecodeEvent", "messages.lemmaDecodeEventV6_62", "messages.lemmaDecodeGetStatusResponse"],
+    replay=[{"match": "uhppote).listen", "driver": "uhppote_listen", "pkg": "uhppote", "case": "all"}, {"match": "uhppote).Listen$", "driver": "uhppote_listen", "pkg": "uhppote", "case": "all"}],
     scope=[r"^uhppote\.\(\*uhppote\)\.listen", r"^uhppote\.\(\*uhppote\)\.Listen\$[12]#", r"^uhppote\.\(\*ut0311\)\.Listen(\$[12])?#", r"^messages\.lemmaDecode(Event|EventV6_62|GetStatusResponse)#"],
     pinned_file="pins_uhppote.json", pinned_labels=["contract", "macro"],
     assumptions=COMMON_ASSUME + ["Listener callbacks are counted by ghost counters (interface contracts Listener.OnError / OnEvent / OnConnected); a channel send is a ghost event of the function (chansends / chansent)",
